@@ -155,6 +155,15 @@ RULE_TEXT["R-LIMB"] = ("the straight-line multi-precision kernels (scalar mul_51
                        "negate, mul_int, add) satisfy their specification as a polynomial identity between exact integer forms of their outputs and inputs, for every input their "
                        "contract admits, in the three portable configurations (native / emulated 128-bit integers, 32-bit limbs); a carry, high half or truncated bits that can "
                        "be non-zero and are dropped are reported with the statement that loses them")
+def _gep_fn(c):
+    import r_gep
+    return r_gep.obligations(sxlib.program(c))
+
+
+R_GEP = {"name": "R-GEP", "run": _both_reprs("R-GEP", _gep_fn)}
+RULE_TEXT["R-GEP"] = ("the `>= p` predicates of secp256k1_fe_set_b32_limit and of the full normalisations equal the definition sum l_k 2^(B k) >= p: their expression trees are "
+                      "evaluated on one representative per box of the grid cut out by their comparison constants and the digits of p (a complete case analysis for predicates "
+                      "that touch the limbs only through comparisons, all-ones AND-chains and the carry form), in both limb layouts")
 R_CONST = {"name": "R-CONST", "run": _both_reprs("R-CONST", _const_fn)}
 R_PACK = {"name": "R-PACK", "run": _both_reprs("R-PACK", _pack_fn)}
 RULE_TEXT["R-PACK"] = ("byte <-> limb packing (fe_set_b32_mod, fe_get_b32, fe_to_storage, fe_from_storage, scalar_set_b32, scalar_get_b32, read_be32/64) is the canonical "
@@ -209,7 +218,7 @@ def _prop(pid, rules, head, not_decided, **kw):
 
 _BOUND_ASSUME = ["distinct pointer parameters do not alias", "summaries: secp256k1_count_bits_set(d, c) in [0, 8c]; clz/ctz ranges"]
 
-ALL_RULES = DECODE + BOUNDS + [R_FLOW, R_ZOF, R_BIND, R_DOM, R_PAIR, R_SIZE, R_LIMB, R_HASH, R_ARGS]
+ALL_RULES = DECODE + BOUNDS + [R_FLOW, R_ZOF, R_BIND, R_DOM, R_PAIR, R_SIZE, R_LIMB, R_HASH, R_ARGS, R_GEP]
 
 _prop("C01", ALL_RULES,
       "ECDSA, structural clauses (the recovery module is analysed although the pinned build omits it).",
@@ -223,7 +232,7 @@ _prop("C03", ALL_RULES,
 _prop("C04", ALL_RULES,
       "Key algebra, structural clauses.",
       "commutation of secret and public operations, correctness of heap sort beyond its length argument, lexicographic order")
-_prop("C05", [R_FLOW, R_PAIR, R_CONST, R_PACK, R_CAP, R_LIMB, R_HASH, R_COMB],
+_prop("C05", [R_FLOW, R_PAIR, R_CONST, R_PACK, R_CAP, R_LIMB, R_HASH, R_COMB, R_GEP],
       "Arithmetic and hashing kernel — the clauses with a structural part: (hashing) caller lengths reach secp256k1_sha256_write unmodified "
       "(tagged hash, HMAC), sha256_write moves data pointer and remaining length together, sha256_transform compresses consecutive blocks; "
       "scratch checkpoints of the multi-scalar batches are restored on every exit; (data) every numeric constant and every entry of the precomputed ecmult / ecmult_gen "
